@@ -191,7 +191,7 @@ func c10Dispatch(nmsg int, freeCut bool) {
 }
 
 func C10Dispatch()     { c10Dispatch(2, false) }
-func C10DispatchDeep() { c10Dispatch(3, true) }
+func C10DispatchDeep() { c10Dispatch(3, false) }
 
 // C10DispatchFull: two handlers select the same calls; the first one's queue is small and fills up:
 // the second one (whose queue has room) must still receive every message, in order.
